@@ -42,7 +42,7 @@ CLAIMED = {
          "Differential oracle for corruption; golang/snappy is the client's codec, the check uses its own decoder.", "DESIGN.md §4 C15"),
  "C04": ("model_checking",
          "stateless model checking of the real top-level client over a simulated cluster: bounded fault scripts x cache state x event position x schedules up to a deviation bound; the cluster executor is the server-side observer",
-         "Every sequence of <=2 events from a 19-event menu (move, split, merge, eight transient exception classes, server crash / stopped / aborted, connection reset, meta move, meta NSRE, ZooKeeper errors) is applied before or concurrently with 1-2 requests on a warm or cold cache; two regions behind one shared connection; a request held in flight while the fault hits, with the fault position enumerated over the first server-side attempts; application exception and dropped table as fatal outcomes. All schedules with <=1-2 deviations. Oracle: success with the request's own value, executed by a server hosting the owning region at that moment (the executor refuses stale names); fatal errors unchanged and not re-executed; nothing blocked. Every single event of the menu is additionally fired as an interrupt at every scheduling step of the client threads while two requests are in progress (cold / warm cache, two servers / one shared connection), on tier L with <=1 (2) further deviations and on tier W.",
+         "Every sequence of <=2 events from a 19-event menu (move, split, merge, eight transient exception classes, server crash / stopped / aborted, connection reset, meta move, meta NSRE, ZooKeeper errors) is applied before or concurrently with 1-2 requests on a warm or cold cache; two regions behind one shared connection; a request held in flight while the fault hits, with the fault position enumerated over the first server-side attempts; application exception and dropped table as fatal outcomes. All schedules with <=1-2 deviations. Oracle: success with the request's own value, executed by a server hosting the owning region at that moment (the executor refuses stale names); fatal errors unchanged and not re-executed; nothing blocked. Every single event of the menu is additionally fired as an interrupt at every scheduling step of the client threads while two requests are in progress (cold / warm cache, two servers / one shared connection), on tier L with <=1 further deviation (2 for the hard events on a warm cache in the thorough tier) and on tier W.",
          "Tier L (simulated region clients); cluster model fidelity; deviation bound; scripts of length <=2 (3 sampled in thorough).", "DESIGN.md §4 C04"),
  "C07": ("model_checking",
          "stateless model checking of SendBatch on the real client over a simulated cluster: per-call outcome scripts x re-location/cancellation events x positions x schedules",
@@ -50,7 +50,7 @@ CLAIMED = {
          "Tier L; bounded script length; deviation bound.", "DESIGN.md §4 C07"),
  "C09": ("model_checking",
          "stateless model checking of availability channels / establishers / connection cache of the real client over a simulated cluster: concurrent callers x faults x positions x schedules up to 2-3 deviations",
-         "2-3 concurrent callers over 2-3 regions behind one or two connections, nine fault kinds (connection reset, crash with reassignment, NSRE bursts, split, split with daughter still opening, merge, server-stopped, move), either as a cold burst or with a request held in flight and the fault fired after the k-th server-side attempt. Oracle: no panic in any thread (double release = close of nil channel), all requests succeed, and at quiescence no cached region is unavailable and no client thread is still running. Every event is additionally fired as an interrupt at every scheduling step of a cold burst of two callers and of two callers with one region known, in all layouts, with <=1 (2) further deviations.",
+         "2-3 concurrent callers over 2-3 regions behind one or two connections, nine fault kinds (connection reset, crash with reassignment, NSRE bursts, split, split with daughter still opening, merge, server-stopped, move), either as a cold burst or with a request held in flight and the fault fired after the k-th server-side attempt. Oracle: no panic in any thread (double release = close of nil channel), all requests succeed, and at quiescence no cached region is unavailable and no client thread is still running. Every event is additionally fired as an interrupt at every scheduling step of a cold burst of two callers and of two callers with one region known, in all layouts, with <=1 further deviation.",
          "Tier L; the data-race clause is not decided by this check (a cooperative scheduler's hand-offs hide races from the detector) - see DESIGN.md §6.", "DESIGN.md §4 C09"),
  "C12": ("model_checking",
          "stateless model checking of SendBatch with the simulated cluster's executor as observer: invalid batches at every position; attempts, execution counts and per-region order judged at the servers",
@@ -58,7 +58,7 @@ CLAIMED = {
          "Tier L: order inside a multi-request is the hand-over order to the (simulated) region client; the real multi assembly is checked by C02/C05.", "DESIGN.md §4 C12"),
  "C13": ("model_checking",
          "stateless model checking with a freeze-the-world oracle on a virtual clock: every wait state x entry point x cancel/deadline x instant x schedules up to a deviation bound",
-         "The client is scripted into each wait state (ZooKeeper silent, meta silent, probe unanswered, retry back-off, server silent after the request, re-establishment with meta silent, lookup back-off; plus the region client's busy send queue on tier R); through get, put, batch with shared context, batch with one call's own context, and scanner; the context is cancelled (or its virtual deadline expires) at 0 / 20 ms / 3 s / 100 s and from that instant the environment answers nothing. Oracle: the API call returns with a context error no later than 1 s of virtual time afterwards; a batch returns with the affected call marked failed and the others untouched. The context is additionally cancelled as an interrupt at every scheduling step of the call (first 120 / 400 client steps) in each wait state and on a healthy cluster, for every entry point, with <=1 (2) further deviations.",
+         "The client is scripted into each wait state (ZooKeeper silent, meta silent, probe unanswered, retry back-off, server silent after the request, re-establishment with meta silent, lookup back-off; plus the region client's busy send queue on tier R); through get, put, batch with shared context, batch with one call's own context, and scanner; the context is cancelled (or its virtual deadline expires) at 0 / 20 ms / 3 s / 100 s and from that instant the environment answers nothing. Oracle: the API call returns with a context error no later than 1 s of virtual time afterwards; a batch returns with the affected call marked failed and the others untouched. The context is additionally cancelled as an interrupt at every scheduling step of the call (first 120 / 400 client steps) in each wait state and on a healthy cluster, for every entry point, with <=1 further deviation.",
          "Virtual time; tier L for all states but the send queue; deviation bound 1 (2 thorough).", "DESIGN.md §4 C13"),
  "C17": ("model_checking",
          "stateless model checking on a virtual clock: persistent-failure scripts x entry points; attempt times stamped by the simulated servers against the literal back-off table; early timer firing as counted deviations; step horizon = hot loop",
@@ -66,7 +66,7 @@ CLAIMED = {
          "Virtual clock; tier L; establishment/lookup loops are judged where they are the persisting loop.", "DESIGN.md §4 C17"),
  "C19": ("model_checking",
          "stateless model checking of Close() racing with requests, lookups, establishment and retries: Close position x environment x schedules up to a deviation bound; quiescence observer; plus the real region client's Dial racing Close on tier R",
-         "Close() (once or twice) fired immediately or after the k-th server-side attempt (k=0..6) against 1-2 concurrent requests on a cold or partly warm cache, in six environments (healthy, slow servers, retry-later, ZooKeeper errors, meta retry-later, probe refused), two layouts, all schedules with <=1 (thorough 2-3) deviations; and Dial vs Close vs a queued call on the real region client with <=2 deviations. Oracle: calls return nil or client-closed within one back-off step of Close, later calls are refused at once, every dialled connection is closed, nothing (ZooKeeper lookup, dial, request) starts once all calls have returned, no client thread is left after 2 h of virtual time. On tier W Close additionally starts as an interrupt at every scheduling step of one (thorough two) requests, answered or held in flight by the servers, with <=1 (2) further deviations.",
+         "Close() (once or twice) fired immediately or after the k-th server-side attempt (k=0..6) against 1-2 concurrent requests on a cold or partly warm cache, in six environments (healthy, slow servers, retry-later, ZooKeeper errors, meta retry-later, probe refused), two layouts, all schedules with <=1 (thorough 2-3) deviations; and Dial vs Close vs a queued call on the real region client with <=2 deviations. Oracle: calls return nil or client-closed within one back-off step of Close, later calls are refused at once, every dialled connection is closed, nothing (ZooKeeper lookup, dial, request) starts once all calls have returned, no client thread is left after 2 h of virtual time. On tier W Close additionally starts as an interrupt at every scheduling step of one (thorough two) requests, answered or held in flight by the servers, with <=1 further deviation.",
          "Tier L for the top-level client (simulated region clients model the repaired real one; the real one is checked on tier R).", "DESIGN.md §4 C19"),
  "C20": ("model_checking",
          "stateless model checking of the connection cache under concurrent first use: regions x callers x all schedules with <=2 deviations; dial and open-connection counters",
